@@ -281,8 +281,20 @@ func (r *Reader) Markdown() (string, error) {
 
 // MarkdownWithOptions extracts content as markdown with the given options.
 func (r *Reader) MarkdownWithOptions(opts ExtractOptions) (string, error) {
+	return r.markdown(opts, 0, 0)
+}
+
+// MarkdownWithHeadingOptions extracts content as markdown, shifting heading
+// levels by offset and capping them at maxLevel (0 = no cap below 6).
+func (r *Reader) MarkdownWithHeadingOptions(opts ExtractOptions, offset, maxLevel int) (string, error) {
+	return r.markdown(opts, offset, maxLevel)
+}
+
+func (r *Reader) markdown(opts ExtractOptions, headingOffset, maxHeadingLevel int) (string, error) {
 	htmlOpts := htmldoc.ExtractOptions{
 		NavigationExclusion: htmldoc.NavigationExclusionMode(opts.NavigationExclusion),
+		HeadingLevelOffset:  headingOffset,
+		MaxHeadingLevel:     maxHeadingLevel,
 	}
 
 	var parts []string
